@@ -52,8 +52,14 @@ def main():
             r2 = sh(os.path.join(VERIF, 'check'), prop, '--replay', f, cwd=VERIF)
             if r2.returncode == 0:
                 dst = os.path.join(VERIF, 'regress', os.path.basename(f))
-                if os.path.exists(dst) and json.load(open(dst)).get('found_on') != 'parent of %s' % commit:
-                    # the same signature was already produced by an earlier defect: keep both replays
+                mine = json.load(open(f))
+                same = [g for g in glob.glob(dst[:-5] + '*.json')
+                        if json.load(open(g)).get('replay') == mine.get('replay')]
+                if same:
+                    kept.append(os.path.basename(f))
+                    continue            # this very replay is already kept (found on another fix's parent as well)
+                if os.path.exists(dst):
+                    # the same signature was produced by another defect with another input: keep both replays
                     dst = dst[:-5] + '-%s.json' % commit
                 if not os.path.exists(dst):
                     obj = json.load(open(f))
